@@ -98,6 +98,10 @@ def build(case):
         # size-dependent code paths: > 1 MiB id files (> 262144 int32 spikes)
         opts.update(ns=300000, n_samples=400000, raw='none', features='none', far_ids=0, nc=6, nt=5, rate=30000.)
     spec = random_spec(rng, **opts)
+    if rng.random() < 0.2 and not case.get('large') and not case.get('batch'):
+        # a KS-named source whose spike times are given the ALF way: seconds from a synchronised clock (offset and drift,
+        # not samples / rate) in spikes.times.npy plus spikes.samples.npy; the export keeps those seconds
+        spec.notes['hybrid_times'] = spec.spike_samples.astype(np.float64) / spec.sample_rate * 1.00002 + 0.125
     if spec.probes is not None:
         # 2-probe table following the merge convention: raw indices of probe 1 = local map + max(map of probe 0)
         nc = spec.n_channels
@@ -110,6 +114,7 @@ def build(case):
         else:
             spec.probes = np.r_[np.full(n0, labels[0], np.int32), np.full(nc - n0, labels[1], np.int32)]
         spec.notes['probe_labels'] = list(labels)
+        spec.probes = spec.probes.astype(['int32', 'int64', 'int16', 'float64', 'uint8'][int(rng.integers(0, 5))])     # probe tables of any numeric dtype
         m0 = rng.permutation(n0 + 1)[:n0]
         m1 = rng.permutation(nc - n0 + 1)[:nc - n0]
         spec.notes['orig_maps'] = [m0.tolist(), m1.tolist()] if nc > n0 else [m0.tolist()]
@@ -177,6 +182,10 @@ def _run(case, ctx, d, which):
         spec, opts, label, factor = build(case)
         src = os.path.join(d, 'src')
         spec.write(src)
+        if spec.notes.get('hybrid_times') is not None:
+            os.remove(os.path.join(src, 'spike_times.npy'))
+            np.save(os.path.join(src, 'spikes.times.npy'), spec.notes['hybrid_times'])
+            np.save(os.path.join(src, 'spikes.samples.npy'), spec.spike_samples)
         if spec.notes.get('cluster_probes'):
             np.save(os.path.join(src, 'cluster_probes.npy'), np.zeros(
                 int(spec.clusters.max()) + 1 if spec.curated else spec.n_templates, dtype=np.int32))
@@ -185,6 +194,8 @@ def _run(case, ctx, d, which):
     if case['seed'][-1] % 10 == 3:
         os.makedirs(out)
         out = os.path.join(out, 'alf')
+    if case['seed'][-1] % 10 == 9 and case.get('source') != 'merged':
+        out = os.path.join(d, 'src_alf')      # a sibling whose name begins with the source's name
     if case['seed'][-1] % 10 == 7 and case.get('source') != 'merged':
         out = os.path.join(d, 'SRC')          # another directory whose name differs from the source's ('src') by letter case only
     if case['seed'][-1] % 2:
@@ -368,8 +379,9 @@ def _oracle_c13(ctx, desc, f0, spec, src, out, m, m2, label, before, after, audi
               file='%s.%s' % (obj, a))
     rate = spec.sample_rate
     samples = spec.spike_samples.astype(np.int64)
+    exp_times = spec.notes['hybrid_times'] if spec.notes.get('hybrid_times') is not None else samples / rate
     if ('spikes', 'times') in table:
-        dd = same(np.load(table[('spikes', 'times')]), samples / rate, dtype=False, rtol=1e-12)
+        dd = same(np.load(table[('spikes', 'times')]), exp_times, dtype=False, rtol=1e-12)      # the source's own clock
         if dd:
             V('units', 'spikes.times is not in seconds: ' + dd, file='spikes.times')
     if ('spikes', 'samples') in table:
@@ -385,7 +397,7 @@ def _oracle_c13(ctx, desc, f0, spec, src, out, m, m2, label, before, after, audi
     if m2 is None:
         V('reload', 'convert() returned no model although params.py exists in the source')
     else:
-        checks = [('spike_times', m2.spike_times, samples / rate, dict(rtol=1e-12)),
+        checks = [('spike_times', m2.spike_times, exp_times, dict(rtol=1e-12)),
                   ('spike_samples', m2.spike_samples, samples, {}),
                   ('spike_clusters', m2.spike_clusters, spec.clusters, {}),
                   ('spike_templates', m2.spike_templates, spec.spike_templates, {}),
